@@ -163,18 +163,18 @@ PRELUDE = """From Coq Require Import QArith Qabs ZArith List Bool String.
 From ESRV Require Import Common.Corr Model.XR Gen.GenLikelihood.
 Import ListNotations.
 Open Scope string_scope.
-Definition F (q : Q) : XR QNum := @Fin QNum q.
+Definition F := qf.
 Inductive exp := EFin (q : Q) | EPInf | ENInf | ENaN | ERaise | EOther.
 Definition tol : Q := 1 # 1000000000000.
 Definition close (a b : Q) : bool :=
   Qle_bool (Qabs (a - b)) (tol * (if Qle_bool 1 (Qabs a) then Qabs a else 1)).
 Definition agree (r : res QNum) (e : exp) : bool :=
-  match r, e with
-  | Ret (NS (Fin a)), EFin b => close a b
-  | Ret (NS PInf), EPInf => true
-  | Ret (NS NInf), ENInf => true
-  | Ret (NS NaN), ENaN => true
-  | Raise, ERaise => true
+  match qshow r, e with
+  | QFin a, EFin b => close a b
+  | QPInf, EPInf => true
+  | QNInf, ENInf => true
+  | QNaN, ENaN => true
+  | QRaise, ERaise => true
   | _, _ => false
   end.
 Definition case := (nat * list (XR QNum) * list (XR QNum) * list (XR QNum) * nv QNum * exp)%type.
@@ -218,7 +218,7 @@ def model_compare(cases, answers, shard=1200):
 
 
 def model_value(case, ans):
-    v = PRELUDE + "Eval vm_compute in (run %s).\n" % case_term(case, ans)
+    v = PRELUDE + "Eval vm_compute in (qshow (run %s)).\n" % case_term(case, ans)
     rc, out = esrv.coq_run(v, timeout=300)
     return " ".join(out.split())[-600:]
 
